@@ -201,10 +201,14 @@ def run_impl(ops, queries_each_step=None):
     state.append([rid(rg), [[rid(r.regex), op_code(r.operation),
                               j_akey(r.algorithm_key, oid), j_ocfg(r.op_config)]
                              for r in rules]])
+  final_rules = [(rg, str(getattr(r.operation, 'value', r.operation)),
+                  str(getattr(r.algorithm_key, 'value', r.algorithm_key)))
+                 for rg, rules in rm._scope_configs.items() for r in rules]  # pylint: disable=protected-access
+  run_impl.final_rules = final_rules
   return outs, state, rid, sid, oid, expanded
 
 
-def oracle(expanded, outs):
+def oracle(expanded, outs, final_rules=None):
   """Direct oracle for C11, independent of the library's manager and of the
   Coq model: replays the history on the documented model (ordered scopes,
   replace-in-place, '*' resets, last applicable rule wins) and compares every
@@ -266,6 +270,14 @@ def oracle(expanded, outs):
         bad.append({'key': 'C11:resolution', 'what':
                     f'get({target!r},{scope!r}) != last applicable rule',
                     'input': expanded, 'expected': exp, 'got': got})
+  if final_rules is not None:
+    doc = [(rg, str(o), str(getattr(a, 'value', a))) for rg, rules in
+           scopes.items() for (o, a, _) in rules]
+    if doc != final_rules:
+      bad.append({'key': 'C11:rule-list', 'what': 'rule list after the history '
+                  'differs from the documented edit model (order of first '
+                  'insertion / replace in place / * reset)',
+                  'input': expanded, 'expected': doc, 'got': final_rules})
   return bad
 
 
@@ -314,23 +326,36 @@ def gen_histories(rng, tier, n_random):
       # prefixes are covered by querying after each step: keep only maximal
       if n == maxlen:
         hist.append(('exh', list(h), queries))
+  if maxlen < 3:
+    # quick tier: exhaustive length 3 over a reduced alphabet that forces
+    # same-scope collisions (replace in place, '*' reset, append)
+    reduced = [('add', 'dense', op, c, alg) for op in SMALL_OPS
+               for (c, alg) in (('drq_w8', ALGS[1]), ('none', ALGS[0]))]
+    reduced.append(('load',))
+    for h in itertools.product(reduced, repeat=3):
+      hist.append(('exh', list(h), queries))
   cfgnames = list(configs().keys())
+  good = ['srq_a8w8', 'drq_w8', 'wo_w8', 'fp16', 'none', 'skip_bad']
   for _ in range(n_random):
     n = rng.randint(4, 12)
     ops = []
+    # per-history sub-alphabets: small ones force collisions
+    rgs = rng.sample(RICH_REGEX, rng.randint(1, 3))
+    opsel = ['*'] + rng.sample(RICH_OPS[1:], rng.randint(1, 4))
+    cfgsel = rng.sample(cfgnames, 3) + rng.sample(good, 3)
     for _ in range(n):
       r = rng.random()
       if r < 0.7:
-        ops.append(('add', rng.choice(RICH_REGEX), rng.choice(RICH_OPS),
-                    rng.choice(cfgnames),
-                    rng.choice(ALGS + ALGS + ['bogus_alg'])))
+        ops.append(('add', rng.choice(rgs), rng.choice(opsel),
+                    rng.choice(cfgsel),
+                    rng.choice(ALGS * 3 + ['bogus_alg'])))
       elif r < 0.8:
         ops.append(('load',))
       elif r < 0.97:
         ops.append(('get', rng.choice(RICH_OPS[1:]), rng.choice(RICH_SCOPES)))
       else:
         ops.append(('needcal',))
-    ops += [('get', o, s) for o in rng.sample(RICH_OPS[1:], 3)
+    ops += [('get', o, s) for o in (opsel[1:] + rng.sample(RICH_OPS[1:], 2))
             for s in rng.sample(RICH_SCOPES, 2)]
     ops.append(('needcal',))
     hist.append(('rnd', ops, None))
@@ -355,7 +380,7 @@ def main():
     outs, state, rid, sid, oid, expanded = run_impl(ops, q)
     exp = vlib.flat([outs, state])
     expected.append(exp)
-    oracle_violations.extend(oracle(expanded, outs)[:1])
+    oracle_violations.extend(oracle(expanded, outs, run_impl.final_rules)[:1])
     cases.append(coq_case(expanded, rid, sid, oid))
     dist[label] += 1
     dist['steps'] += len(expanded)
